@@ -123,9 +123,9 @@ func newBare(pc poolCfg, t0 int64) (*bare, error) {
 		switch msg.Ty {
 		case types.EventGetLastHeader:
 			r.mu.Lock()
-			h := *r.hdrs[len(r.hdrs)-1]
+			h := types.Clone(r.hdrs[len(r.hdrs)-1]).(*types.Header)
 			r.mu.Unlock()
-			msg.Reply(c.NewMessage("", types.EventHeader, &h))
+			msg.Reply(c.NewMessage("", types.EventHeader, h))
 		case types.EventIsSync:
 			msg.Reply(c.NewMessage("", types.EventReplyIsSync, &types.IsCaughtUp{Iscaughtup: true}))
 		case types.EventTxHashList:
